@@ -89,9 +89,9 @@ type HistRec struct {
 	FinalDB  *TipObs       `json:"final_last_block_db"`
 	FinalErr *string       `json:"final_last_block_db_err"`
 	// restart view: a fresh Chain over the same database, Init + PrepareCache (what Executer.Init does)
-	PrepErr *string `json:"prepare_cache_err"`
-	PrepTip *TipObs `json:"prepare_cache_tip"`
-	CloseErr *string       `json:"close_err"`
+	PrepErr  *string `json:"prepare_cache_err"`
+	PrepTip  *TipObs `json:"prepare_cache_tip"`
+	CloseErr *string `json:"close_err"`
 }
 
 type HistIn struct {
